@@ -160,6 +160,80 @@ def _hds_read():
         note="consumer of the run sequence: each element satisfies run_ok (callee contract); parent stream modelled as a file holding the parent's guest bytes")
 
 
+# ------------------------------------------------------------------------------------------------ StorageStream (C10)
+class StorageModel(Model):
+    """StorageStream over n storages (struct-of-arrays).  Class invariant (StorageStream.__init__ sorts by start):
+    contiguous ascending sector ranges [START(i), END(i)), _lookup[i] == START(i), size == 512 * END(n-1)."""
+
+    def __init__(self):
+        super().__init__()
+        self.hyps = []
+        self.n = z3.Int("len(self.streams)")
+        self.START = z3.Function("storage_start", I, I)
+        self.END = z3.Function("storage_end", I, I)
+        self.SSZ = z3.Function("stream_size", I, I)
+        self.SG = z3.Function("StorageGuest", I, I, I)
+        self.G = z3.Function("Guest", I, I)
+        self.size = self.int_field("self.size")
+        self.obj_field("self.streams")
+        self.obj_field("self._lookup")
+        self.items["self.streams"] = self.stream_item
+        self.lens["self.streams"] = IntV(self.n)
+        self.global_calls["bisect_right"] = self.bisect_right
+        self.globals["SECTOR_SIZE"] = IntV(z3.IntVal(512))
+        self._k = 0
+        self.hyps += [self.n >= 1, self.START(0) == 0, self.size == self.END(self.n - 1) * 512,
+                      z3.ForAll([T], z3.Implies(z3.And(0 <= T, T < self.n), z3.And(self.START(T) < self.END(T), self.SSZ(T) >= (self.END(T) - self.START(T)) * 512,
+                                                                                    z3.Implies(T + 1 < self.n, self.END(T) == self.START(T + 1)))))]
+
+    def guest_of_storage(self, i):
+        """SPEC (prl-xml.txt: storages cover consecutive sector ranges), instantiated at storage i"""
+        return z3.ForAll([K], z3.Implies(z3.And(self.START(i) * 512 <= K, K < self.END(i) * 512), self.G(K) == self.SG(i, K - self.START(i) * 512)))
+
+    def bisect_right(self, eng, st, args, node):
+        x = eng.as_int(args[1], st, node)
+        r = fresh("bisect")
+        st.hyps.append(z3.And(0 <= r, r <= self.n, z3.Implies(r > 0, self.START(r - 1) <= x), z3.Implies(r < self.n, x < self.START(r))))
+        return IntV(r)
+
+    def stream_item(self, eng, st, idx, node):
+        i = eng.as_int(idx, st, node)
+        eng.pre(st, i >= 0, node)  # a negative index would silently address the last storage
+        eng.may_raise("IndexError", st, i < self.n, node)
+        self._k += 1
+        p = f"storage!{self._k}"
+        self.fields[p + ".start"] = IntV(self.START(i))
+        self.fields[p + ".end"] = IntV(self.END(i))
+        name = f"stream!{self._k}"
+        self.files[name] = (self.SSZ(i), lambda x, i=i: self.SG(i, x))
+        st.hyps.append(self.guest_of_storage(i))
+        return TupleV([ObjV(p), FileV(name)])
+
+
+def _storage_read():
+    offset0, length0 = z3.Ints("offset0 length0")
+    A, N = z3.Ints("A N")
+
+    def inv(eng, st):
+        m = eng.model
+        sector, count, acc, si = st.env["sector"].e, st.env["count"].e, st.env["result"].joined, st.env["stream_idx"].e
+        st.anchor(offset0, cls="byte")
+        return z3.And(sector >= A, sector + count == A + N, count >= 0, acc.n == (sector - A) * 512,
+                      forall_k(acc.n, lambda k: acc.at(k) == m.G(offset0 + k)), 0 <= si, si <= m.n,
+                      z3.Implies(z3.And(si < m.n, count > 0), z3.And(m.START(si) <= sector, sector < m.END(si))), z3.Implies(z3.And(si == m.n, count > 0), sector * 512 >= m.size),
+                      st.ghost["io"] <= 512 * (sector - A))
+
+    def post(eng, st, rv):
+        m = eng.model
+        return lstream_post(rv, m.G, offset0, length0, m.size) + [("cost", st.ghost["io"] <= length0)]
+
+    return FnContract(FILE, "StorageStream._read", ["C06", "C08", "C10", "C13"], StorageModel,
+                      params=lambda m: {"self": ObjV("self"), "offset": IntV(offset0), "length": IntV(length0)},
+                      requires=lambda m: m.hyps + [A >= 0, N >= 1, offset0 == 512 * A, length0 == 512 * N, offset0 < m.size],
+                      post=post, loops={("While", 0): LoopSpec(inv, lambda eng, st: st.env["count"].e)}, shifts=r"^(result_len)!", units=(512,),
+                      note="number of storages, their ranges and the request symbolic; includes requests that straddle storages and run past the last one")
+
+
 replay = make_replay("hds")
 bounded = make_bounded("hds", "hds.small_scope")
 
@@ -170,4 +244,4 @@ def trusted(pid):
 
 
 def contracts(repo):
-    return [_iter_runs("functional"), _hds_read(), _iter_runs("termination")]
+    return [_iter_runs("functional"), _hds_read(), _iter_runs("termination"), _storage_read()]
